@@ -7,4 +7,4 @@ Require Reflow Unicode Typo Scan PathClean Repl Tables Loop St.
 Definition reflow_c := Reflow.reflow Unicode.is_space.
 Separate Extraction reflow_c Typo.french Typo.english Scan.parse PathClean.clean PathClean.join PathClean.base
   Repl.enc Repl.dec Tables.latex_table Tables.roff_table Tables.markdown_table Tables.html_table Unicode.is_space Unicode.is_punct
-  Loop.compile_source Loop.mkWorld St.wout St.files St.diags St.panicked St.d_file St.d_line St.d_user St.d_macro St.d_kind.
+  Loop.compile_source Loop.mkWorld St.wout St.files St.diagnostics St.panicked St.d_file St.d_line St.d_user St.d_macro St.d_kind.
